@@ -209,6 +209,8 @@ def boson_search(chk, n_cases):
         dkmax = rng.choice([None, None, 1, 2, 3])
         tau = rng.choice([None, 0.0, 0.15, np.inf]) if dkmax is not None else None
         eps = 1e-7
+        if it == 4:     # every run: full memory, a run continued over several compute() calls (below)
+            dkmax, n, tau = None, 5, None
         if it == 2:     # every run: a memory TIME slightly below / exactly at a whole number of steps, and a run longer than it
             dkmax, n, tau = rng.choice([2, 3]), 5, rng.choice([None, 0.0])
         if dkmax is not None and (rng.random() < 0.4 or it == 2):
@@ -226,6 +228,13 @@ def boson_search(chk, n_cases):
         info = {"d": d, "o": list(o), "corr": ck, "T": T, "dt": dt, "n": n, "dkmax": dkmax, "tau_add": tau, "rotated": not np.allclose(V, np.eye(d)), "unique": unique, "initial_state_order": "F" if it % 2 == 1 else "C"}
         try:
             t = oqupy.Tempo(oqupy.System(H), bath, par, rho0, 0.0, unique=unique)
+            if it % 2 == 0 and n >= 3:
+                # the documented "continue to propagate": the run reaches its end in several compute() calls on the one object (every second
+                # case; the memory setting means the same whether a run is continued or done in one go)
+                legs = sorted(set([rng.randint(1, n - 2), n - 1]))
+                info["tempo_compute_calls"] = legs + [n]
+                for k_ in legs:
+                    quiet(t.compute, k_ * dt, progress_type="silent")
             st_t = np.array(quiet(t.compute, n * dt, progress_type="silent").states)
             # the process tensor in memory or written directly to a file (every third case; it == 1: rotated complex basis, forced)
             pt = quiet(oqupy.pt_tempo_compute, bath, 0.0, n * dt, parameters=par, unique=unique, process_tensor_file=True if it % 3 == 1 else None,
